@@ -21,6 +21,32 @@ EXPLAIN = ("R-OWN writers of the adjacency; R-DOM/R-EFFECT LinkEvent(add) with f
            "the spanning-forest property of _calc_spanning_tree for every graph is NOT decided (value-level algorithmic property).")
 DISC = 'openflow.discovery'; ST = 'openflow.spanning_tree'
 
+def _withdraw_by_value (repo, dmod, disc, dl, g2, lp, rmev):
+  """_delete_links run by the analyser's interpreter: ([per path: [(announced link, still in the table?)]], [per path: final
+  table keys]) or None when a path cannot be evaluated"""
+  events_all = []; finals = []
+  cur = {'ev': []}
+  def hook (call, env=None):
+    if call_name(call) in ('raiseEventNoErrors', 'raiseEvent') and len(call.args) >= 3 and norm(call.args[0]) == 'LinkEvent':
+      try:
+        flag = q.eval_env2(repo, dmod, call.args[1], env, disc); l = q.eval_env2(repo, dmod, call.args[2], env, disc)
+        adj = env.exact.get('self.adjacency')
+        env.exact['__events__'] = env.exact.get('__events__', ()) + ((l, flag, (l in adj) if isinstance(adj, dict) else None),)
+      except Exception:
+        env.exact['__events__'] = env.exact.get('__events__', ()) + (('?', None, None),)
+      return (True, None)
+    return (False, None)
+  hook.wants_env = True; hook.effects = True
+  env = q.Env({lp: ['L1', 'L2', 'L3'], 'self.adjacency': {'L1': 1.0, 'L2': 2.0, 'L4': 4.0}}, [], hook)
+  paths = q.paths_under(repo, dmod, g2, env, g2.entry, [g2.exit], disc, limit=20)
+  if not paths: return None
+  for p_, e_ in paths:
+    evs = e_.exact.get('__events__', ())
+    adj = e_.exact.get('self.adjacency')
+    if not isinstance(adj, dict) or any(l == '?' or flag is not False or present is None for l, flag, present in evs): return None
+    events_all.append([(l, present) for l, flag, present in evs]); finals.append(list(adj))
+  return events_all, finals
+
 def run (ctx):
   ctx.explanation = EXPLAIN
   ctx.assumptions = ["LLDP TLV classes carry their fields as written by _create_discovery_packet"]
@@ -93,7 +119,22 @@ def run (ctx):
          [q.enclosing_stmt_node(g2, s) for k, s in q.mutations_of_attr(dl.node, 'adjacency') if k == 'delitem']
   ctx.floor('link-removed raise site', len(rmev), 1); ctx.floor('adjacency pop site', len(pops), 1)
   loops = [(s_, h, a) for (s_, h, a) in g2.loop_nodes if isinstance(s_, ast.For)]
-  for what, nodes in (("announced removed", rmev), ("popped", pops)):
+  # by value: three links withdrawn from an adjacency of four (one of the three already gone), events and table recorded
+  sim = _withdraw_by_value(repo, dmod, disc, dl, g2, lp, rmev)
+  if sim is not None:
+    events, finals = sim
+    want_ev = ['L1', 'L2', 'L3']
+    okev = all(sorted(l for l, present in ev) == want_ev for ev in events) and bool(events)
+    ctx.ob('R-ALL', dl, "every withdrawn link is announced removed exactly once", okev, "3 links withdrawn, 3 removal events, one per link" if okev else
+           "withdrawing L1, L2, L3 announces %s: links are announced removed for only some of the withdrawn links (or more than once)" % [[l for l, p_ in ev] for ev in events][:2], dl, 'D1')
+    okpop = all(sorted(f_) == ['L4'] for f_ in finals) and bool(finals)
+    ctx.ob('R-ALL', dl, "every withdrawn link is popped exactly once", okpop, "adjacency {L1, L2, L4} minus (L1, L2, L3) leaves L4" if okpop else
+           "withdrawing L1, L2, L3 from an adjacency holding L1, L2, L4 leaves %s" % [sorted(f_) for f_ in finals][:2], dl, 'D1')
+    stale = [l for ev in events for l, present in ev if present]
+    ctx.ob('R-ORDER', dl, "a link is out of the adjacency when its removal is announced", not stale, "no announced link is still in the table" if not stale else
+           "LinkEvent(removed) for %s is raised while the link is still in the adjacency: the spanning-tree component recomputes its tree from the stale adjacency inside the "
+           "handler and keeps flooding over the dead link (nothing triggers another recomputation)" % stale[0], dl, 'D1')
+  for what, nodes in ((("announced removed", rmev), ("popped", pops)) if sim is None else ()):
     for n in nodes:
       lo = [(s_, h, a) for (s_, h, a) in loops if n in g2.loop_body_nodes(h)]
       good = len(lo) == 1 and norm(lo[0][0].iter) == lp and not [x for x in g2.nodes if x.kind in ('break', 'return') and x in g2.reachable(lo[0][1]) and any(m is lo[0][2] for m, l in x.succ)]
@@ -109,7 +150,7 @@ def run (ctx):
     c = [c for c in q.node_calls(e) if c.args and norm(c.args[0]) == 'LinkEvent'][0]
     lo = [(s_, h, a) for (s_, h, a) in loops if e in g2.loop_body_nodes(h)]
     ctx.ob('R-AGREE', dl, "the announced link is the loop's link", bool(lo) and len(c.args) >= 3 and norm(c.args[2]) == norm(lo[0][0].target), norm(c)[:60], (dmod, c), 'D1')
-  for e in rmev:
+  for e in (rmev if sim is None else ()):
     good = bool(pops) and all((p_ not in g2.reachable(e)) or g2.dominates(p_, e) for p_ in pops) and any(e in g2.reachable(p_) for p_ in pops)
     ctx.ob('R-ORDER', dl, "a link is out of the adjacency when its removal is announced", good, "pop precedes the announcement" if good else
            "LinkEvent(removed) is raised while the link is still in the adjacency: the spanning-tree component recomputes its tree from the stale adjacency inside the "
@@ -222,9 +263,22 @@ def run (ctx):
     n_ = q.enclosing_stmt_node(gmk, st_[0]) if st_ else None
     if n_ is None: return None
     return q.values_at(repo, dmod, gmk, q.Env({mk.params[0]: 0x1a2b3c}), n_, e, None)
-  for what, e_ in (("chassis id", cid), ("system description", sdp)):
+  # the TLV objects by the constructor that built them; their fields as they stand when the probe is returned (set by
+  # attribute store or by constructor keyword alike)
+  tlv_var = {}
+  for t, v, st, k in q.stores_in(mk.node):
+    if isinstance(t, ast.Name) and isinstance(v, ast.Call) and call_name(v) in ('chassis_id', 'system_description'): tlv_var[call_name(v)] = t.id
+  rets_ = [n for n in gmk.nodes if n.kind == 'return']
+  def at_return (expr_text):
+    if not rets_: return None
+    try: e2 = ast.parse(expr_text, mode='eval').body
+    except SyntaxError: return None
+    return q.values_at(repo, dmod, gmk, q.Env({mk.params[0]: 0x1a2b3c}), rets_[0], e2, None)
+  for what, e_, fld in (("chassis id", cid, ('chassis_id', 'id')), ("system description", sdp, ('system_description', 'payload'))):
     vals = written(e_)
-    good = vals == {b'dpid:1a2b3c'}
+    if (not vals or '?' in vals) and fld[0] in tlv_var:
+      vals = at_return('%s.%s' % (tlv_var[fld[0]], fld[1]))
+    good = True if vals == {b'dpid:1a2b3c'} else (None if (not vals or '?' in vals) else False)
     ctx.ob('R-AGREE', mk, "probe carries the datapath id as 'dpid:' + hex digits (%s)" % what, good, "dpid 0x1a2b3c -> b'dpid:1a2b3c'" if good else
            "for dpid 0x1a2b3c the %s TLV carries %s; the receiving side expects b'dpid:' followed by the hex digits" % (what, sorted(map(repr, vals)) if vals else norm(e_) if e_ is not None else '?'), mk, 'D2')
   pidc = [c for c in calls_in(mk.node) if call_name(c) == 'port_id']
